@@ -173,7 +173,42 @@ func scenario(x *explore.X) {
 			if strings.Join(got, "|") != strings.Join(want, "|") {
 				x.Failf("via-chain", "forwarded Via elements %q, want %q (client nominated Via in Connection: %v)", got, want, nominated)
 			}
-			nh.Conns[conns[0]].Send([]byte("HTTP/1.1 200 OK\r\nContent-Length: 2\r\n\r\nok"))
+			// (round 9) the next hop may take the request and hang up, or reset, without answering: whatever the proxy then
+			// does (an error response, a second attempt), the request never looped - it is not answered 400, and a second
+			// attempt carries the same chain, not one in which this instance's element appears twice
+			switch fate := x.Choose("next-hop-after-receiving-the-request", 3); fate {
+			case 0:
+				nh.Conns[conns[0]].Send([]byte("HTTP/1.1 200 OK\r\nContent-Length: 2\r\n\r\nok"))
+			default:
+				if fate == 1 {
+					nh.Conns[conns[0]].Close()
+				} else {
+					nh.Raw[conns[0]].Abort()
+				}
+				// (the connection may have been a reused one, in which case net/http's transport repeats the request on a new
+				// connection by itself: every attempt meets the same fate)
+				for attempt := 0; attempt < 4; attempt++ {
+					world.Settle(5 * time.Second)
+					more, mc, _ := nh.Next()
+					if len(more) == 0 {
+						break
+					}
+					for i, m := range more {
+						if g := elems(m.Get("Via")); strings.Join(g, "|") != strings.Join(want, "|") {
+							x.Failf("via-chain/second-attempt", "the next hop hung up without answering; a further attempt reached it with Via elements %q, want %q", g, want)
+						}
+						if fate == 1 {
+							nh.Conns[mc[i]].Close()
+						} else {
+							nh.Raw[mc[i]].Abort()
+						}
+					}
+				}
+				ans := httpwire.ParseResponses(cl.Recv(), []string{"GET", "GET", "GET"}, false)
+				if n := len(ans.Msgs); n == 0 || ans.Msgs[n-1].Status == 400 {
+					x.Failf("foreign-via-refused/after-the-next-hop-hung-up", "Via %s does not contain this instance's element and the next hop hung up without answering (fate %d): the client got %q, a request that never looped is not a loop", desc, fate, world.Clip(cl.Recv()))
+				}
+			}
 		}
 		x.Outcome(fmt.Sprintf("forwarded/%d", len(elems(lines))))
 	}
